@@ -104,7 +104,8 @@ func c13Worker(w *W) {
 	_ = os.RemoveAll(dir)
 	_ = os.MkdirAll(dir, 0755)
 	defer os.RemoveAll(dir)
-	const fname = "roll.log"
+	// legal file names, some of which look like pieces of a Go time layout (a name must be used verbatim)
+	fname := []string{"roll.log", "gateway-2006.node1.log", "svc_Jan-02.15h", "roll.log", "app.Mon.MST.pm", "x", "a b.05.log", "日志-04.log"}[w.Spec.Shard%8]
 	if mode == "dst" {
 		// local clocks fall back by one hour 2.3 s from now: rotation must go on, interval after interval
 		loc, err := syntheticZone(time.Now().Add(2300 * time.Millisecond))
